@@ -675,6 +675,19 @@ def gen_c02(tape, tier):
     elif k == 4:
         opts['span_hosts'] = True
         opts['exclude_hostnames'] = ['other.test']
+    elif k == 5:
+        # the two families together: every rule given must hold
+        opts['span_hosts'] = True
+        opts['domains'] = ['site.test', 'other.test']
+        opts['exclude_hostnames'] = ['other.test']
+    elif k == 6:
+        opts['span_hosts'] = True
+        opts['hostnames'] = ['site.test', 'other.test', 'third.test']
+        opts['exclude_domains'] = ['third.test']
+    elif k == 7:
+        opts['span_hosts'] = True
+        opts['domains'] = ['test']
+        opts['exclude_hostnames'] = ['third.test', 'other.test'][:tape.between(1, 2, 'opt.hosts.nex')]
     if opts.get('span_hosts'):
         opts.pop('span_hosts_allow', None)      # mutually exclusive on the command line
     k = tape.draw(8, 'opt.dirs')
